@@ -214,12 +214,7 @@ def tlc_behaviours(ctx):
     num = 40 if ctx.quick else 1500
     res = vlib.run_tlc(ctx, "MC_Bits", "Gen_Bits", workers=1, timeout=900,
                        args=["-simulate", "num=%d" % num, "-depth", "60", "-seed", str(ctx.seed)])
-    out = []
-    for line in res.out.splitlines():
-        mm = re.match(r'^<<"GEN", "(.*)">>$', line.strip())
-        if mm:
-            hist = json.loads(mm.group(1).replace('\\"', '"').replace("\\\\", "\\"))
-            out.append(hist)
+    out = vlib.tlc_printed(res)
     if not out:
         raise vlib.Infra("Gen_Bits produced no behaviours:\n" + res.out[-2000:])
     return out
